@@ -35,6 +35,8 @@ def f_expect_list(case):
     check(xs.shape == (len(K),), 'expect(list) shape %r' % (xs.shape,), 'shape')
     check(np.allclose(xs, exp, atol=_tol(be)), 'expect(%s) = %s expected %s (stabilizers %s r=%d)' % (
         case['obs'], xs.tolist(), np.real(exp).tolist(), ref.show_list(*[a[case['state']['r']:N] for a in C.state_rows(case['state'])[:2]]), case['state']['r']), 'expect-list')
+    xs2 = Bk.num(S.expect(P))      # same receiver, same argument object, asked again
+    check(xs2.shape == xs.shape and np.allclose(xs2, exp, atol=_tol(be)), 'second expect(%s) on the same objects = %s expected %s' % (case['obs'], xs2.tolist(), np.real(exp).tolist()), 'expect-repeat')
     if be == 'torch':
         u = Bk.mods()['u']
         v = Bk.num(u.vectorizable_stabilizer_expect(S.gs, S.ps, P.gs, P.ps, S.r))
@@ -98,6 +100,8 @@ def f_expect_poly(case):
     exp = complex(np.trace(rho @ dense))
     check(abs(val - exp) < 10 * _tol(be), 'expect(%s %s) = %r expected %r (state rows %s r=%d)' % (
         kind, [(ref.show(t[0], t[1]), t[2]) for t in terms], val, exp, ref.show_list(Ls[r:N], Ks[r:N]), r), 'expect-' + kind)
+    val2 = complex(Bk.num(S.expect(obj)))
+    check(abs(val2 - exp) < 10 * _tol(be), 'second expect(%s) on the same objects = %r expected %r' % (kind, val2, exp), 'expect-repeat')
     return {'nt': abs(exp) > 1e-9 and (odd or r > 0 or exp.real < 0), 'labels': [kind, 'N=%d' % N, 'odd-phase' if odd else 'real-phase', 'nonzero' if abs(exp) > 1e-9 else 'zero']}
 
 
@@ -131,6 +135,11 @@ def f_overlap(case):
     exp = complex(np.trace(rho @ sig))
     check(abs(val - exp) < 10 * _tol(be), 'expect(state) = %r expected %r; receiver %s, other %s r=%d' % (
         val, exp, case['state']['rows'], case['other']['rows'], case['other']['r']), 'overlap')
+    val2 = complex(Bk.num(S.expect(O)))
+    check(abs(val2 - exp) < 10 * _tol(be), 'second expect(state) on the same objects = %r expected %r' % (val2, exp), 'overlap-repeat')
+    if case['other']['r'] == 0:
+        val3 = complex(Bk.num(O.expect(S)))      # Tr(rho sigma) is symmetric
+        check(abs(val3 - exp) < 10 * _tol(be), 'expect(state) with the roles exchanged = %r expected %r' % (val3, exp), 'overlap-symmetric')
     return {'nt': 1e-9 < exp.real < 1 - 1e-9 or (exp.real > 1e-9 and case['other']['r'] > 0), 'labels': ['N=%d' % N, 'other-r=%d' % case['other']['r'], 'zero' if abs(exp) < 1e-9 else 'nonzero']}
 
 
@@ -283,6 +292,6 @@ FACETS.append(Facet('torch/state-histories', f_history, strategy=lambda t: st_hi
 
 from checks import large as _large
 FACETS.append(Facet('np/large-N-get_prob', _large.f_get_prob_large, strategy=lambda t: _large.st_big(pure=True), examples={'quick': 24, 'thorough': 600}, shards={'quick': 2, 'thorough': 8}))
-FACETS.append(Facet('np/large-N-overlap', _large.f_overlap_large, strategy=lambda t: _large.st_big({'extra': st.sampled_from([0, 1, 3, 10]), 'r2': st.integers(0, 8)}, pure=True),
+FACETS.append(Facet('np/large-N-overlap', _large.f_overlap_large, strategy=lambda t: _large.st_big({'extra': st.sampled_from([0, 1, 3, 10]), 'r2': st.integers(0, 8), 'scramble': st.sampled_from([False, False, True])}, pure=True),
                     examples={'quick': 24, 'thorough': 600}, shards={'quick': 2, 'thorough': 8}))
 FACETS.append(Facet('np/large-N-expect', _large.f_expect_large, strategy=lambda t: _large.st_big(), examples={'quick': 40, 'thorough': 1500}, shards={'quick': 1, 'thorough': 4}))
